@@ -630,8 +630,18 @@ def rule_skips(ctx: Ctx) -> RuleResult:
         else:
             res.ok(f"FindInPaths: `yield {norm(y.value)}`", "behind the falsy-Sid skip and the type-mismatch skip")
     # the already-searched-pattern shortcut is per type
+    sflow = flow_of(f.node)
     for c in own_nodes(f.node):
-        if isinstance(c, ast.Compare) and len(c.ops) == 1 and isinstance(c.ops[0], ast.In) and norm(c.left) == "pattern":
+        if not (isinstance(c, ast.Compare) and len(c.ops) == 1 and isinstance(c.ops[0], ast.In)):
+            continue
+        cn_ = cfg.node_of(c)
+        ldeps = sflow.depends(c.left, cn_.id if cn_ is not None else None)
+        # the glob pattern: made from search.path(..), not something the file system answered
+        is_pattern = norm(c.left) == "pattern" or (
+            any(a.kind == "call" and a.text.split(".")[-1] == "path" for a in ldeps)
+            and not any(a.kind == "call" and ("glob" in a.text or "findSequences" in a.text or a.text.split(".")[-1] in ("listdir", "scandir", "walk"))
+                        for a in ldeps))
+        if is_pattern and not isinstance(c.comparators[0], (ast.Constant, ast.Tuple, ast.List)):
             cont = c.comparators[0]
             if _per_type(flow_of(f.node), cont, cfg.node_of(c)):
                 res.ok("FindInPaths: searched patterns", "remembered per Sid type")
@@ -1245,3 +1255,73 @@ def rule_finderroute(ctx: Ctx) -> RuleResult:
                           f"same type can be answered from different data", f.relpath, x.lineno)
         res.floor(n, 1, f"uses of the Sid parameter in {q}")
     return res
+
+
+def rule_nonerow(ctx: Ctx) -> RuleResult:
+    """a type that the Getter table lists with None has NO Getter (GetFromAll answers nothing for it): the lookup tells
+    'listed with None' from 'not listed' (membership / .get default), it does not fall through on a falsy row (C16: one
+    record per Sid the configured Getter's Finder finds - and none where no Getter is configured)"""
+    res = RuleResult("R-NONEROW")
+    q = "spil_data_conf.get_getter_for"
+    f = ctx.p.function(q)
+    flow = flow_of(f.node)
+    # the table: a module-level dictionary some of whose configured rows are None
+    tables = set()
+    for n in own_nodes(f.node):
+        d = None
+        if isinstance(n, ast.Call) and isinstance(n.func, ast.Attribute) and n.func.attr == "update" and n.args and isinstance(n.args[0], ast.Dict) \
+                and isinstance(n.func.value, ast.Name):
+            d, name = n.args[0], n.func.value.id
+        elif isinstance(n, ast.Assign) and isinstance(n.value, ast.Dict) and isinstance(n.targets[0], ast.Name):
+            d, name = n.value, n.targets[0].id
+        if d is not None and any(isinstance(v, ast.Constant) and v.value is None for v in d.values):
+            tables.add(name)
+    for name, bs in f.module.bindings.items():
+        if bs and isinstance(bs[-1].value, ast.Dict) and any(isinstance(v, ast.Constant) and v.value is None for v in bs[-1].value.values):
+            tables.add(name)
+    if not tables:
+        res.ok(q, "no Getter row is configured as None", nontrivial=False)
+        return res
+    sid_p = f.params[0]
+    parents = {}
+    for x in ast.walk(f.node):
+        for ch in ast.iter_child_nodes(x):
+            parents[id(ch)] = x
+    n = 0
+    for c in own_nodes(f.node):
+        if not (isinstance(c, ast.Call) and isinstance(c.func, ast.Attribute) and c.func.attr == "get" and c.args):
+            continue
+        recv = c.func.value
+        at = flow.node_of(c)
+        aliases_table = (isinstance(recv, ast.Name) and recv.id in tables) or any(
+            a.kind == "free" and a.text in tables for a in flow.aliases(recv, at.id if at else None))
+        by_type = any(isinstance(x, ast.Attribute) and x.attr == "type" and norm(x.value) == sid_p for x in ast.walk(c.args[0])) or any(
+            a.kind == "attr" and a.text == f"{sid_p}.type" for a in flow.depends(c.args[0], at.id if at else None))
+        if not (aliases_table and by_type):
+            continue
+        n += 1
+        site = f"{q}: `{norm(c)}`"
+        par = parents.get(id(c))
+        falls = isinstance(par, ast.BoolOp) and isinstance(par.op, ast.Or) and par.values[-1] is not c
+        # or through a local that is then tested for truth before another source is returned
+        if not falls and isinstance(par, (ast.Assign, ast.AnnAssign)):
+            tgt = par.targets[0] if isinstance(par, ast.Assign) else par.target
+            if isinstance(tgt, ast.Name):
+                for x in own_nodes(f.node):
+                    if isinstance(x, ast.BoolOp) and isinstance(x.op, ast.Or) and isinstance(x.values[0], ast.Name) and x.values[0].id == tgt.id \
+                            and not _is_none_or_empty(x.values[-1]):
+                        falls = True
+        in_facts = any(truth and txt.endswith(f" in {norm(recv)}") for txt, truth in facts_at(ctx, f, c))
+        if falls and not in_facts:
+            res.violation([q, norm(c.func.value), "None row falls through"],
+                          f"{q}: `{norm(par)[:80]}` treats a type that is listed with None like a type that is not listed: it falls through "
+                          f"to the default Getter, so GetFromAll returns records for types that are configured to have none", f.relpath, c.lineno,
+                          site=site)
+        else:
+            res.ok(site, "a row configured as None is answered with None (membership / explicit default), not with the fallback")
+    res.floor(n, 1, "typed lookups in the Getter table")
+    return res
+
+
+def _is_none_or_empty(e: ast.AST) -> bool:
+    return isinstance(e, ast.Constant) and e.value is None
